@@ -393,6 +393,154 @@ def corr_spec(ctx, pool, name):
     ctx.coq_cases(name, base.HEADER, cases, shard=1, label="spec_partition_pools")
 
 
+# ---- lazily built iterables, shared tables with temporaries (identity re-use), oracle only ----------------
+
+class Rows:
+    """a lazy table: iterating builds a brand new (unhashable) object for every row and drops it"""
+
+    def __init__(self, data, conv):
+        self.data = data
+        self.conv = conv
+
+    def __iter__(self):
+        for r in self.data:
+            row = self.conv(r)
+            yield row
+
+
+def _gen(data, conv):
+    for r in data:
+        yield conv(r)
+
+
+LAZY_FACTORIES = {
+    "Rows": lambda data, conv: Rows(data, conv),
+    "generator": lambda data, conv: _gen(data, conv),
+    "map": lambda data, conv: map(conv, data),
+}
+LAZY_SHAPES = {
+    "list": (list, lambda i: (i,)),
+    "list2": (list, lambda i: (i, i + 100)),
+    "set": (set, lambda i: (i,)),
+    "dict": (dict, lambda i: ((i, i),)),
+    "nested": (lambda t: [list(t)], lambda i: (i, "r")),
+}
+
+
+def lazy_family(shape, n):
+    """contents (lists of row seeds): the base and every variant in which row k is replaced by a copy of row j"""
+    conv, mk = LAZY_SHAPES[shape]
+    base = [mk(i) for i in range(n)]
+    fam = [base]
+    for j in range(n):
+        for k in range(n):
+            if j != k:
+                other = list(base)
+                other[k] = base[j]
+                fam.append(other)
+    return conv, fam
+
+
+def lazy_check(ctx, factory, shape, n, o):
+    """hash of a lazily built iterable depends on its content only: equal hashes => equal canonical content"""
+    from deepdiff import DeepHash
+    conv, fam = lazy_family(shape, n)
+    seen = {}
+    k = kw(o)
+    for data in fam:
+        v = LAZY_FACTORIES[factory](data, conv)
+        h = DeepHash(v, **k)[v]
+        c = canon_mode([conv(r) for r in data], o)
+        ctx.evaluations += 1
+        if h in seen and seen[h][0] != c:
+            ctx.nontrivial.add(("lazy", factory, shape, n, o, c))
+            ctx.fail({"kind": "lazy_rows", "opts": list(o), "factory": factory, "shape": shape, "n": n,
+                      "rows": repr(seen[h][1]), "other_rows": repr(data)},
+                     "a lazily built iterable (%s of %s rows) with rows %r shares its hash with one with rows %r" % (factory, shape, seen[h][1], data))
+            return False
+        seen.setdefault(h, (c, data))
+    return True
+
+
+def oracle_lazy(ctx):
+    for o in MODES3:
+        for factory in LAZY_FACTORIES:
+            for shape in LAZY_SHAPES:
+                for n in ((3, 4, 8) if not ctx.thorough else (3, 4, 8, 14)):
+                    ctx.count("oracle:lazy_families")
+                    if not lazy_check(ctx, factory, shape, n, o):
+                        break
+
+
+def shared_temporaries_check(ctx, o, n, variant):
+    """one hashes= table shared by successive calls on short-lived values with pairwise different contents:
+    a hash handed out twice must be for the same content"""
+    from deepdiff import DeepHash
+    shared, seen = {}, {}
+    k = kw(o)
+    for i in range(n):
+        if variant == 0:
+            v = [i, -i - 1]
+        elif variant == 1:
+            v = {"k": [i], "j": {i + 1000}}
+        else:
+            v = ([i, [i + 1]], {"x": i})
+        c = canon_mode(v, o)
+        h = DeepHash(v, hashes=shared, **k)[v]
+        ctx.evaluations += 1
+        if h in seen and seen[h][0] != c:
+            ctx.fail({"kind": "shared_temporaries", "opts": list(o), "n": n, "variant": variant, "index": i,
+                      "value": seen[h][1], "other": repr(v)},
+                     "with a hashes= table shared across calls on short-lived values, %s and %r share a hash" % (seen[h][1], v))
+            return
+        seen[h] = (c, repr(v))
+        del v
+
+
+def oracle_shared_temporaries(ctx):
+    for o in MODES3:
+        for variant in (0, 1, 2):
+            ctx.count("oracle:shared_temporaries_streams")
+            shared_temporaries_check(ctx, o, 300, variant)
+
+
+# ---- strings DeepHash may refuse: lone surrogates ---------------------------------------------
+
+def surrogate_pool():
+    s1, s2 = "caf\ud800", "caf\ud801"
+    f1, f2 = "report-\udce9.txt", "report-\udce8.txt"
+    P = [s1, s2, "caf?", "caf\ufffd", "caf", f1, f2, "report-?.txt", "\ud800", "\udfff", "?", "\ud800\udc00", "\udc00\ud800",
+         [f1, "readme.md"], [f2, "readme.md"], ["report-?.txt", "readme.md"],
+         {"name": f1, "size": 3}, {"name": f2, "size": 3}, {f1: 1}, {f2: 1}, {"report-?.txt": 1},
+         (s1, s1, "x"), (s1, s2, "x"), (s2, s2, "x"), ("caf?", "caf?", "x"), {s1}, {s2}, {"caf?"}, [s1], [s2], [[s1]], [[s2]]]
+    return P
+
+
+def oracle_surrogates(ctx):
+    """either DeepHash refuses the value (UnicodeEncodeError: no hash handed out) or unequal values get different hashes"""
+    from deepdiff import DeepHash
+    pool = surrogate_pool()
+    for o in MODES3:
+        for label, hasher in (("sha256", None), ("sha1", DeepHash.sha1hex)):
+            hs = {}
+            refused = 0
+            for v in pool:
+                try:
+                    h = impl_hash(v, o, hasher)[0]
+                except UnicodeEncodeError:
+                    refused += 1
+                    continue
+                c = canon_mode(v, o)
+                ctx.evaluations += 1
+                if h in hs and hs[h][0] != c:
+                    ctx.nontrivial.add(("surrogate", label, o, c))
+                    ctx.fail({"kind": "collision", "opts": list(o), "value": base.expr_shared(hs[h][1]), "other": base.expr_shared(v), "hasher": label},
+                             "equal hashes for different strings with lone surrogates: %s vs %s" % (ascii(hs[h][1]), ascii(v)))
+                hs.setdefault(h, (c, v))
+            ctx.count("oracle:surrogate_values:%s" % label, len(pool))
+            ctx.count("oracle:surrogate_refused:%s" % label, refused)
+
+
 def replay_witnesses(ctx):
     from deepdiff import DeepHash
     for s, x in [("NONE", None), ("int:1", 1), ("bool:true", True), ("list:", []), ("float:1.5", 1.5), ("dict:{}", {})]:
@@ -437,6 +585,9 @@ def run(ctx):
         o2 = (o[0], o[1], False) + o[3:]
         MODE_NAME[o2] = MODE_NAME[o]
         oracle_pool(ctx, pool, o2, None, "sha256,private_kept")
+    oracle_lazy(ctx)
+    oracle_shared_temporaries(ctx)
+    oracle_surrogates(ctx)
     if ctx.thorough:
         for r in range(6):
             pool2 = build_pool(random.Random(rng.randrange(1 << 30)), 80, 620)[len(near_collisions()) + len(identity_shapes()) - 40:]
@@ -449,14 +600,32 @@ def run(ctx):
 
 def replay(ctx, data):
     case = data.get("case", {})
+    if case.get("kind") == "lazy_rows":
+        o = tuple(case["opts"])
+        ok = lazy_check(ctx, case["factory"], case["shape"], case["n"], o)
+        print("replay: lazy rows factory=%s shape=%s n=%d -> %s" % (case["factory"], case["shape"], case["n"], "no collision" if ok else "collision"))
+        return
+    if case.get("kind") == "shared_temporaries":
+        o = tuple(case["opts"])
+        n0 = len(ctx.failures) + len(ctx.known_seen)
+        shared_temporaries_check(ctx, o, case["n"], case["variant"])
+        print("replay: shared hashes= table over %d short-lived values (variant %d)" % (case["n"], case["variant"]))
+        return
     if "value" not in case or "other" not in case:
         return run(ctx)
     o = tuple(case["opts"])
     MODE_NAME.setdefault(o, "opts")
     a, b = from_repr(case["value"]), from_repr(case["other"])
-    ha, hb = impl_hash(a, o)[0], impl_hash(b, o)[0]
+    from deepdiff import DeepHash
+    hasher = DeepHash.sha1hex if case.get("hasher") == "sha1" else None
+    try:
+        ha, hb = impl_hash(a, o, hasher)[0], impl_hash(b, o, hasher)[0]
+    except UnicodeEncodeError as e:
+        ctx.evaluations += 1
+        print("replay: DeepHash refuses the value (%s): no hash handed out" % type(e).__name__)
+        return
     ca, cb = canon_mode(a, o), canon_mode(b, o)
     ctx.evaluations += 1
-    print("replay: %r -> %s\n        %r -> %s\n        canonical forms %s" % (a, ha, b, hb, "equal" if ca == cb else "differ"))
+    print("replay: %s -> %s\n        %s -> %s\n        canonical forms %s" % (ascii(a), ha, ascii(b), hb, "equal" if ca == cb else "differ"))
     if ha == hb and ca != cb:
-        ctx.fail(case, "equal hashes for values that differ under the mode's equivalence: %r vs %r" % (a, b))
+        ctx.fail(case, "equal hashes for values that differ under the mode's equivalence: %s vs %s" % (ascii(a), ascii(b)))
